@@ -42,6 +42,7 @@ fn main() {
         "values" => values::run(&a),
         "compress" => compress::run(&a),
         "sinks" => compress::run_sinks(&a),
+        "compsteps" => compress::run_steps(&a),
         "inspect" => inspect::run(&a),
         "framing" => hostile::run_framing(&a),
         "hostile" => hostile::run_hostile(&a),
